@@ -99,6 +99,8 @@ Sync(c, s) ==
                ELSE LET tab2 == Learn(s)
                         m2 == AStep(QQ(c), m, TRUE)
                         s2 == [s EXCEPT !.m = m2, !.tab = tab2, !.peak = peak, !.F = hv.F, !.aftercall = FALSE,
+                                        !.fin = [hp |-> s.regs[Cfg.heap.r].b, fp |-> s.regs[Cfg.free.r].b, nlin |-> hv.nlinear,
+                                                 ndef |-> hv.ndeferred, reach |-> hv.reach, F |-> hv.F],
                                         !.cov = [maxenv |-> IF Len(m.env) > s.cov.maxenv THEN Len(m.env) ELSE s.cov.maxenv,
                                                  maxdef |-> IF hv.ndeferred > s.cov.maxdef THEN hv.ndeferred ELSE s.cov.maxdef,
                                                  maxlin |-> IF hv.nlinear > s.cov.maxlin THEN hv.nlinear ELSE s.cov.maxlin,
@@ -109,7 +111,7 @@ Sync(c, s) ==
 
 PInit(c) ==
   [IsaInit(PP(c), Cases[c].args, Cfg.nblocks) EXCEPT !.strict = Cfg.strict_encode]
-    @@ [c |-> c, m |-> AInit(QQ(c), Cases[c].args), marks |-> 0, tab |-> <<>>, peak |-> 0, F |-> 0, aftercall |-> FALSE,
+    @@ [c |-> c, m |-> AInit(QQ(c), Cases[c].args), marks |-> 0, tab |-> <<>>, peak |-> 0, F |-> 0, aftercall |-> FALSE, fin |-> [hp |-> 0, fp |-> 0, nlin |-> 0, ndef |-> 0, reach |-> 0, F |-> 0],
         cov |-> [maxenv |-> 0, maxdef |-> 0, maxlin |-> 0, maxshared |-> 0]]
 
 PStep(s) ==
@@ -133,7 +135,7 @@ Run == /\ st.status = "run"
 Report == /\ st.status \notin {"run", "reported"}
           /\ PrintT("RESULT " \o ToJson([case |-> Cases[st.c].name, status |-> st.status, tag |-> st.tag, why |-> st.why,
                                           nout |-> Len(st.out), steps |-> st.steps, marks |-> st.marks, hi |-> st.hi,
-                                          peak |-> st.peak, F |-> st.F, pc |-> st.pc, msteps |-> st.m.steps, cov |-> st.cov,
+                                          peak |-> st.peak, F |-> st.F, pc |-> st.pc, msteps |-> st.m.steps, cov |-> st.cov, fin |-> st.fin,
                                           res |-> IF st.result.t = "int" THEN st.result.w ELSE <<>>]))
           /\ st' = [st EXCEPT !.status = "reported"]
 Next == Run \/ Report
